@@ -13,6 +13,9 @@ from typing import List
 from ..program import AnalysisError, Ext, FunctionInfo, fn_nodes, norm
 from ..cfg import cfg_of
 from .common import can_reach_exit, const_value, is_const, succ_by_label
+from .common import inconclusive_on_error as _ioe
+from ..fold import ExtVal
+from typing import Any
 
 
 def r19_1(ctx) -> None:
@@ -115,6 +118,60 @@ def r19_2_3(ctx) -> None:
               "base64.urlsafe_b64encode(s).rstrip(b'=')", construct="encode configuration")
 
 
+@_ioe
+def _i2b_folded(ctx):
+    """Fold util.int_to_base64 on probe integers with urlsafe_b64encode intercepted (answered by the real encoder, which is stdlib and not under
+    test): negatives are refused with ValueError, every other integer is handed over as its minimal unsigned big-endian octets (none for 0, no
+    leading zero octet at 2**8k - 1 / 2**8k boundaries) and the result is the text of that encoding.  -> deviations, or None when inconclusive."""
+    import base64
+    from ..fold import FuncVal, FoldRaise, is_unknown
+    eng = ctx.eng
+    F = eng.folder
+    fn = eng.prog.func("util:int_to_base64")
+    ue = eng.prog.func("util:urlsafe_b64encode")
+    problems: List[str] = []
+    probes = [-1, -255, -2 ** 70, 0, 1, 127, 128, 255, 256, 257, 65535, 65536, 2 ** 24 - 1, 2 ** 24, 2 ** 64 - 1, 2 ** 64, 2 ** 255, 2 ** 256 - 1, 2 ** 521 - 1, 0x0102030405]
+    F.start_trace()
+    try:
+        for n in probes:
+            seen: List[Any] = []
+
+            def hook(b, seen=seen):
+                v = b.get(ue.pos_params[0])
+                seen.append(v)
+                if not isinstance(v, bytes):
+                    raise FoldRaise(ExtVal("TypeError", (), (), True))
+                return base64.urlsafe_b64encode(v).rstrip(b"=")
+            F.intercepts = {"util:urlsafe_b64encode": hook}
+            try:
+                r = F.call(FuncVal(fn, None, None), [n], {})
+                got = "ok"
+            except FoldRaise as ex:
+                got = getattr(ex, "name", "") or "?"
+                r = None
+            finally:
+                F.intercepts = {}
+            if n < 0:
+                if got == "ok":
+                    problems.append(f"int_to_base64({n}) is not refused")
+                elif got != "ValueError":
+                    problems.append(f"int_to_base64({n}) is refused with {got}, not ValueError")
+                continue
+            want = n.to_bytes((n.bit_length() + 7) // 8, "big")
+            if got != "ok":
+                problems.append(f"int_to_base64({n if n < 2 ** 70 else hex(n)}) raises {got}")
+                continue
+            if is_unknown(r) or len(seen) != 1 or is_unknown(seen[0]):
+                return None
+            if seen[0] != want:
+                problems.append(f"int_to_base64({n if n < 2 ** 70 else hex(n)[:20]}) encodes the octets {seen[0]!r:.40}, the minimal unsigned big-endian form is {want!r:.40}")
+            elif r != base64.urlsafe_b64encode(want).rstrip(b"=").decode("ascii"):
+                problems.append(f"int_to_base64({n if n < 2 ** 70 else hex(n)[:20]}) returns {r!r:.40}, not the text of the encoding")
+    finally:
+        sided = F.one_sided(ignore=("to_str", "to_bytes"))
+    return None if sided else problems
+
+
 def r19_4_5(ctx) -> None:
     eng = ctx.eng
     P = eng.prog
@@ -134,8 +191,13 @@ def r19_4_5(ctx) -> None:
         ok = L in (f"({np_}.bit_length()+7)//8", f"-(-{np_}.bit_length()//8)") and len(x.args) >= 2 and const_value(x.args[1]) == "big" and (not signed or is_const(signed[0], False))
     rets = [_resolve_local(eng, i2b, r.value) for r in fn_nodes(i2b) if isinstance(r, ast.Return) and r.value is not None]
     ok = ok and len(rets) == 1 and rets[0].startswith(f"urlsafe_b64encode({np_}.to_bytes(")
-    ctx.check(ok, "R19.4", i2b, i2b.node, i2b.short, "int_to_base64 does not refuse negatives before encoding the minimal unsigned big-endian form", "raise if num < 0; to_bytes(ceil(bit_length/8), 'big'); urlsafe_b64encode",
-              construct="int_to_base64")
+    fi = _i2b_folded(ctx)
+    if fi is not None:
+        ctx.check(not fi, "R19.4", i2b, i2b.node, i2b.short, "int_to_base64 does not refuse negatives before encoding the minimal unsigned big-endian form: " + "; ".join(fi[:2]),
+                  "raise if num < 0; to_bytes(ceil(bit_length/8), 'big'); urlsafe_b64encode", construct="int_to_base64")
+    else:
+        ctx.check(ok, "R19.4", i2b, i2b.node, i2b.short, "int_to_base64 does not refuse negatives before encoding the minimal unsigned big-endian form", "raise if num < 0; to_bytes(ceil(bit_length/8), 'big'); urlsafe_b64encode",
+                  construct="int_to_base64")
     b2i = P.func("util:base64_to_int")
     sp = b2i.pos_params[0]
     D = f"urlsafe_b64decode(to_bytes({sp}))"
